@@ -158,6 +158,11 @@ def run(c):
         open(cfg, "w").write(cfg_text(m, nd, cr=1).replace(" BackupsComplete", ""))
         r = vlib.tlc_model("RestartRotation.tla", cfg, rd, workers=2, timeout=900, must_take=("CrashRestart", "Crash", "Close"))
         c.add_model("RestartRotation with recovery after a crash", r, "MaxBackups=%d NDumps=%d CrashRestarts=1" % (m, nd))
+        # two successive recoveries and a clean restart in one history (model only)
+        cfg2 = os.path.join(rd, "RRc2_%d.cfg" % m)
+        open(cfg2, "w").write(cfg_text(m, nd, pr=1, cr=2).replace(" BackupsComplete", ""))
+        r2 = vlib.tlc_model("RestartRotation.tla", cfg2, rd, workers=2, timeout=900, coverage=False)
+        c.add_model("RestartRotation with two recoveries and a clean restart", r2, "MaxBackups=%d NDumps=%d CrashRestarts=2 ProcRestarts=1" % (m, nd))
     nrec = 0
     for (m, s, pt, at, fs, pr) in list(scen):
         if pt != "-" and m >= 1 and not pr and len(s) <= m + 2:
